@@ -232,6 +232,7 @@ func lexPairs() []lexPair {
 	return []lexPair{
 		{"runtime heredoc (back-reference cache)", func() lexer.Definition { return scen.NewDef() }, []string{"a=<<X h X;", "b=<<Y w Y;", "c=<<X o X", "k=<-XY b X;", "a=<<X x"}},
 		{"runtime alias (NUL-joined cache keys)", func() lexer.Definition { return lexer.MustStateful(scen.AliasRules()) }, []string{"x\x00yx\x00y!", "tx\x00yxx\x00y!", "x\x00yx!"}},
+		{"runtime \\0 back-reference", func() lexer.Definition { return lexer.MustStateful(scen.ZeroRefRules()) }, []string{"''i's'' x", "'a' b", "'''q'''", "w"}},
 		{"runtime quotes", func() lexer.Definition { return lexer.MustStateful(scen.QuoteRules()) }, []string{`"it's" x`, `'say "hi"' y`, `"a (b 'c') d"`, `w`}},
 		{"generated quotes", func() lexer.Definition { return schedlex.QuotesLexer }, []string{`"it's" x`, `'say "hi"' y`, `"a (b 'c') d"`, `w`}},
 	}
